@@ -70,6 +70,12 @@ func (c *C03) Run(x *engine.Ctx) *engine.Violation {
 			comms := make([]*big.Int, cc.Batch)
 			for i := range comms {
 				comms[i] = rollup.RandomCommitment(t)
+				if t.Chance(1, 8) {
+					// the empty value is a legal commitment (a sequencer pads short batches with it); as a packed
+					// 256-bit field it is the one value whose alternative representatives are r, 2r, ... themselves
+					comms[i] = big.NewInt(0)
+					x.S.Count("probe:batch_with_zero_commitment")
+				}
 			}
 			start, ok := w.FreeStart(t, cc.Batch)
 			if !ok {
@@ -179,6 +185,14 @@ func (c *C03) attackInsertion(x *engine.Ctx, t *tape.Tape, cc *rollup.Circuit, w
 	case 1, 2, 3: // alternative 256-bit representative of one packed value + forged bits
 		fields := append([]*big.Int{pre, post}, comms...)
 		order := t.Pick(len(fields))
+		if t.Chance(1, 2) {
+			// boundary first: a field that is exactly 0 has the multiples of r themselves as its other representatives
+			for i, fv := range fields {
+				if fv.Sign() == 0 {
+					order = i
+				}
+			}
+		}
 		for off := 0; off < len(fields); off++ {
 			fv := fields[(order+off)%len(fields)]
 			ks := altK(fv)
@@ -186,6 +200,9 @@ func (c *C03) attackInsertion(x *engine.Ctx, t *tape.Tape, cc *rollup.Circuit, w
 				continue
 			}
 			k := ks[t.Pick(len(ks))]
+			if t.Chance(1, 2) {
+				k = ks[0] // the nearest representative, v + r: where a strict bound and an inclusive one differ
+			}
 			alt := new(big.Int).Add(fv, new(big.Int).Mul(oracle.R, big.NewInt(int64(k))))
 			sub := func(v *big.Int) *big.Int {
 				if v.Cmp(fv) == 0 {
